@@ -273,6 +273,22 @@ pub fn run_batch<P: Prop>(p: &P, cfg: &BatchCfg) -> i32 {
                             .push(format!("run {i}: {h}"));
                         stop.store(true, Ordering::Relaxed);
                     }
+                    if !res.sut_panics.is_empty() && res.violation.is_none() {
+                        // identical panics in all compared sessions: not a violation of this
+                        // property, but keep the trace for inspection
+                        let dir = format!("{}/work/panics", crate::verif_root());
+                        let _ = std::fs::create_dir_all(&dir);
+                        if std::fs::read_dir(&dir).map(|d| d.count()).unwrap_or(0) < 40 {
+                            let mut t = trace.clone();
+                            if let Some(o) = t.as_object_mut() {
+                                o.insert("sut_panics".into(), json!(res.sut_panics));
+                            }
+                            let _ = std::fs::write(
+                                format!("{dir}/{id}-{}-{i}.json", cfg.verif_seed),
+                                serde_json::to_string_pretty(&t).unwrap(),
+                            );
+                        }
+                    }
                     let mut violation_trace = None;
                     if let Some(v) = &res.violation {
                         let (min, evals) = minimise(p, &mut w, &trace, &v.oracle);
